@@ -42,7 +42,7 @@ theorem translate_correct {R : Type} [CommRing R] (j : Nat) (hj : j < 16) (env :
   Family.poly_sound ringOps_ringLike (all_ok f_translate (by simp [families])) rfl rfl (ks := []) (by simp [f_translate]) (j := j) hj env
 
 /-- non-vacuity -/
-example : (lookup "rotate" []).nIn = 20 ∧ (lookup "rotate" []).outs.length = 16 ∧ families.length = 26 := by
+example : (lookup "rotate" []).nIn = 20 ∧ (lookup "rotate" []).outs.length = 16 ∧ families.length = 31 := by
   decide +kernel
 
 end Glm.Props.C09
